@@ -969,4 +969,98 @@ theorem measure_names_sqrt_rank (s : String) (h0 : s ≠ "squared euclidean")
   refine ⟨?_, by decide, by decide, by decide⟩
   simp [newMeasure, sqrtName, h0, h1]
 
+/-! ## 8. reuse sessions: the same object goes through comparisons and transforms -/
+
+section session
+variable {Obj Val : Type}
+
+private theorem sessStep_prefix (st : List Obj) (s : Step Obj Val) : st <+: (sessStep st s).1 := by
+  cases s with
+  | tf src f =>
+    simp only [sessStep]
+    cases st[src]? with
+    | none => exact List.prefix_refl _
+    | some o => exact List.prefix_append _ _
+  | cmp a b m =>
+    simp only [sessStep]
+    cases st[a]? <;> cases st[b]? <;> exact List.prefix_refl _
+
+/-- no step of a session changes or removes an object that is already there: the store only
+    grows at its end (transforms append their result, comparisons only read) -/
+theorem session_store_prefix (st : List Obj) (steps : List (Step Obj Val)) :
+    st <+: (sessRun st steps).1 := by
+  induction steps generalizing st with
+  | nil => exact List.prefix_refl _
+  | cons s rest ih => exact (sessStep_prefix st s).trans (ih _)
+
+/-- in particular every source object is, after any sequence of steps, what it was before -/
+theorem session_sources_unchanged (st : List Obj) (steps : List (Step Obj Val)) (i : ℕ)
+    (hi : i < st.length) : (sessRun st steps).1[i]? = st[i]? := by
+  obtain ⟨t, ht⟩ := session_store_prefix st steps
+  rw [← ht, List.getElem?_append_left hi]
+
+private theorem sessStep_out_of_prefix {st st' : List Obj} (h : st <+: st') (s : Step Obj Val)
+    (hr : ∀ r ∈ s.refs, r < st.length) : (sessStep st' s).2 = (sessStep st s).2 := by
+  obtain ⟨t, rfl⟩ := h
+  cases s with
+  | tf src f =>
+    have h1 : src < st.length := hr src (by simp [Step.refs])
+    simp only [sessStep, List.getElem?_append_left h1, List.getElem?_eq_getElem h1]
+  | cmp a b m =>
+    have h1 : a < st.length := hr a (by simp [Step.refs])
+    have h2 : b < st.length := hr b (by simp [Step.refs])
+    simp only [sessStep, List.getElem?_append_left h1, List.getElem?_append_left h2,
+      List.getElem?_eq_getElem h1, List.getElem?_eq_getElem h2]
+
+/-- whatever went before, a step on source objects returns what the same step returns on the
+    pristine store: the transform / the comparison of the ORIGINAL objects -/
+theorem session_step_on_pristine (st : List Obj) (pre : List (Step Obj Val)) (s : Step Obj Val)
+    (hr : ∀ r ∈ s.refs, r < st.length) :
+    (sessStep (sessRun st pre).1 s).2 = (sessStep st s).2 :=
+  sessStep_out_of_prefix (session_store_prefix st pre) s hr
+
+/-- the `k`-th value a session returns, when that step refers to source objects, is the value
+    of that single step on the pristine store -/
+theorem session_outputs_pristine (st : List Obj) (steps : List (Step Obj Val)) (k : ℕ)
+    (s : Step Obj Val) (hk : steps[k]? = some s) (hr : ∀ r ∈ s.refs, r < st.length) :
+    (sessRun st steps).2[k]? = some (sessStep st s).2 := by
+  suffices H : ∀ (st' : List Obj), st <+: st' →
+      (sessRun st' steps).2[k]? = some (sessStep st s).2 from H st (List.prefix_refl _)
+  induction steps generalizing k with
+  | nil => simp at hk
+  | cons s0 rest ih =>
+    intro st' hp
+    cases k with
+    | zero =>
+      simp only [List.getElem?_cons_zero, Option.some.injEq] at hk
+      subst hk
+      simp only [sessRun, List.getElem?_cons_zero, Option.some.injEq]
+      exact sessStep_out_of_prefix hp s0 hr
+    | succ k =>
+      simp only [List.getElem?_cons_succ] at hk
+      simp only [sessRun, List.getElem?_cons_succ]
+      exact ih k hk _ (hp.trans (sessStep_prefix st' s0))
+
+end session
+
+/-- the session of the property text: a Pearson comparison, then `sqrt_transform` of the same
+    (non-negative) RDM, then a rank-based and a cosine comparison — the transform is that of the
+    original values, the rank measure that of the raw RDMs, the cosine still the cosine -/
+theorem session_corr_sqrt_rank (x y : List ℝ) (hx : ∀ a ∈ x, 0 ≤ a) :
+    (sessRun [x, y] [Step.cmp 0 1 corr, Step.tf 0 (fun v => v.map Real.sqrt),
+        Step.cmp 2 1 spearman, Step.cmp 2 1 tauA, Step.cmp 0 1 cosine]) =
+      ([x, y, x.map Real.sqrt],
+       [Out.val (corr x y), Out.obj (x.map Real.sqrt), Out.val (spearman x y),
+        Out.val (tauA x y), Out.val (cosine x y)]) := by
+  obtain ⟨_, h1, _, h3, _⟩ := sqrt_on_nonneg_keeps_rank_measures x y hx
+  simp [sessRun, sessStep, h1.1, h3.1]
+
+example : (sessRun [([0, 4, 1] : List ℚ), [2, 1, 3]]
+    [Step.cmp 0 1 (fun a b => (a.zip b).map (fun p => p.1 * p.2)), Step.tf 0 (List.map (· + 1)),
+     Step.cmp 2 0 (fun a b => (a.zip b).map (fun p => p.1 * p.2)), Step.tf 5 id]).1 =
+    [[0, 4, 1], [2, 1, 3], [1, 5, 2]] := by decide +kernel
+
+example : ∀ r ∈ (Step.cmp 0 1 (fun (a b : List ℚ) => a.length + b.length) : Step (List ℚ) ℕ).refs,
+    r < ([[0, 4, 1], [2, 1, 3]] : List (List ℚ)).length := by decide
+
 end Rsa.Props.C17
